@@ -212,6 +212,17 @@ class Ctx:
         self.budget_exhausted = False
         self._hyp_idx = 0
         self.quick = tier == "quick"
+        self.journal_path = os.environ.get("VF_JOURNAL") or None
+
+    def journal(self, case):
+        """Write the case about to be executed, so that a hard crash (segfault in
+        jitted code) of the worker can still be reported with a replayable input."""
+        if self.journal_path:
+            try:
+                with open(self.journal_path, "w") as fh:
+                    json.dump(jsonable(case), fh, default=str)
+            except Exception:
+                pass
 
     # ---- recording
     def record(self, case, nontrivial, classes=()):
@@ -329,6 +340,7 @@ class Ctx:
             if ctx.time_left() <= 0 and not last:
                 ctx.budget_exhausted = True
                 return
+            ctx.journal(case)
             with warnings.catch_warnings():
                 warnings.simplefilter("ignore")
                 problems = check_case(ctx, case)
